@@ -5,4 +5,4 @@ CHECK_DEADLOCK FALSE
 CONSTANTS
   MaxTok = 3
   Small = FALSE
-  Members = FALSE
+  Members = TRUE
